@@ -37,9 +37,9 @@ CTXS = prog.CLS_NAMES
 MARK = "mk0"
 
 POSITIONS = ["select_bare", "select_vw", "where_eq", "in_list", "between", "like", "having", "join_on", "insert_row", "replace_row", "set_value",
-             "fn_arg", "case_when", "case_then", "case_else", "tuple_elem", "array_elem", "json_term", "column_default", "do_update", "upsert_where", "load_file"]
+             "fn_arg", "case_when", "case_then", "case_else", "tuple_elem", "array_elem", "json_term", "column_default", "do_update", "upsert_where", "load_file", "at_time_zone"]
 FAMILY = {"select_bare": "wrapper_cls", "set_value": "wrapper_cls", "select_vw": "explicit_vw",
-          "json_term": "json_term", "column_default": "column_default", "load_file": "load_file"}
+          "json_term": "json_term", "column_default": "column_default", "load_file": "load_file", "at_time_zone": "at_time_zone"}
 
 T = ["src", "T"]
 SRC = {"T": ["tbl", "t", None, None], "U": ["tbl", "u", None, None]}
@@ -87,6 +87,8 @@ def template(pos, H):
         return base + [["select", [["json_h", H]]]]
     if pos == "column_default":
         return [["create_table", [["py", "nt"]]], ["columns", [["column_h", H]]]]
+    if pos == "at_time_zone":
+        return base + [["select", [["attz_h", H]]]]  # a AT TIME ZONE '<zone>'
     if pos == "load_file":
         return [["load", [H]], ["into", [["py", "t"]]]]  # MySQL LOAD DATA LOCAL INFILE '<path>'
     if pos == "do_update":
@@ -109,6 +111,15 @@ def _column_h(node, env):
 
 
 prog.EXTRA_NODES["json_h"] = _json_h
+
+
+def _attz_h(node, env):
+    from pypika_tortoise.terms import AtTimezone, Field
+
+    return AtTimezone(Field("a"), prog.build_arg(node[1], env))
+
+
+prog.EXTRA_NODES["attz_h"] = _attz_h
 
 
 def _patched_build_arg():
@@ -195,6 +206,8 @@ def kind_of(v):
 
 def applicable(pos, v, cls=None):
     k = kind_of(v)
+    if pos == "at_time_zone":
+        return k == "str"  # a zone is named by a string
     if pos == "load_file":
         return k == "str" and cls == "mysql" and v != ""  # only the MySQL class has the LOAD DATA builder; its file name is a non-empty str (without one the builder is incomplete)
     if pos == "select_bare" and k == "str":
